@@ -45,12 +45,15 @@ def main():
                     print("skip (unconfirmed):", sd)
                     continue
                 conf = json.load(open(cj))
-                if conf.get("error") or conf.get("with_patch") != "41 0" or not conf.get("with_patch_and_demo", "").endswith(" 1") and int(conf.get("with_patch_and_demo", "0 0").split()[1]) < 1 \
-                        or conf.get("demo_only", "x 1").split()[1] != "0":
+                wpd = conf.get("with_patch_and_demo", "0 0").split()
+                do = conf.get("demo_only", "0 1").split()
+                demo_fails = int(wpd[1]) >= 1 or int(wpd[0]) < int(do[0])      # a failed test, or a test binary that aborted
+                if conf.get("error") or conf.get("with_patch") != "41 0" or not demo_fails or do[1] != "0":
                     print("skip (confirmation failed):", sd, conf)
                     continue
                 meta = json.load(open(os.path.join(sd, "meta.json")))
-                dst = os.path.join(VERIF, "seeded", "%s-%s" % (meta.get("property", os.path.basename(wt)), k))
+                rnd = "r2-" if os.path.basename(wt.rstrip("/")).startswith("R2") else ""
+                dst = os.path.join(VERIF, "seeded", "%s-%s%s" % (meta.get("property", os.path.basename(wt)), rnd, k))
                 os.makedirs(dst, exist_ok=True)
                 for f in ("patch.diff", "demo.diff"):
                     shutil.copy(os.path.join(sd, f), os.path.join(dst, f))
